@@ -237,3 +237,5 @@ func (c02) unsupported(c *fw.Case) {
 		c.Sample(map[string]any{"kind": "unsupported $schema", "schema": json.RawMessage(text)})
 	}
 }
+
+func (c02) Finalize(a *fw.Agg, t fw.Tier) { keywordCoverage(a, true) }
